@@ -85,7 +85,15 @@ Qed.
 Lemma step_expect k s : step s (expect k s).
 Proof. unfold expect. destruct (cur_is s k); [apply step_bump|apply step_error]. Qed.
 
-Opaque bump skip_ws error expect in_node out_of_fuel.
+Lemma step_version_text s : step s (version_text s).
+Proof.
+  unfold version_text. destruct (cur_is s IDENT); [|apply step_error].
+  destruct (cur_is (bump s) COLON).
+  - eapply step_trans; [apply step_bump|]. eapply step_trans; [apply step_bump|apply step_expect].
+  - apply step_bump.
+Qed.
+
+Opaque bump skip_ws error expect in_node out_of_fuel version_text.
 
 Ltac stp :=
   repeat match goal with
@@ -97,6 +105,7 @@ Ltac stp :=
   | |- step ?s (skip_ws ?t) => apply (step_trans s t); [|apply step_skip_ws]
   | |- step ?s (error ?t) => apply (step_trans s t); [|apply step_error]
   | |- step ?s (expect ?k ?t) => apply (step_trans s t); [|apply step_expect]
+  | |- step ?s (version_text ?t) => apply (step_trans s t); [|apply step_version_text]
   | |- step ?s (out_of_fuel ?t) => apply (step_trans s t); [|apply step_out_of_fuel]
   end.
 
@@ -167,7 +176,7 @@ Proof.
   match goal with |- step _ (if peek_is ?t _ then _ else _) => apply (step_trans s t) end.
   2:{ match goal with |- step ?t (if ?b then _ else _) => destruct b end; [|stp].
       eapply step_trans; [apply step_skip_ws|]. apply pres_in_node. intros u. cbv zeta.
-      match goal with |- step _ (expect _ (expect _ (skip_ws (constraint_node ?v)))) =>
+      match goal with |- step _ (expect _ (skip_ws (version_text (skip_ws (constraint_node ?v))))) =>
         apply (step_trans u (constraint_node v)); [|stp] end.
       eapply step_trans; [|apply pres_constraint_node]. stp. }
   (* archqual *)
@@ -208,7 +217,7 @@ Proof.
 Qed.
 
 (* ======================= totality: no panic, fuel suffices ======================= *)
-Transparent bump skip_ws error expect in_node out_of_fuel.
+Transparent bump skip_ws error expect in_node out_of_fuel version_text.
 
 Definition ltoks (s : pst) : nat := length (toks s).
 
@@ -265,6 +274,16 @@ Proof. apply step_expect. Qed.
 Lemma ltoks_expect_lt k s : current s <> None -> ltoks (expect k s) < ltoks s.
 Proof. intros H. unfold expect. destruct (cur_is s k); [apply ltoks_bump|apply ltoks_error_lt]; exact H. Qed.
 
+Lemma flag_version_text s : flag (version_text s) = flag s.
+Proof.
+  unfold version_text. destruct (cur_is s IDENT) eqn:E; [|apply flag_error].
+  pose proof (flag_bump s (cur_is_some _ _ E)) as F1.
+  destruct (cur_is (bump s) COLON) eqn:E2; [|exact F1].
+  rewrite flag_expect, flag_bump; [exact F1|eapply cur_is_some; exact E2].
+Qed.
+Lemma ltoks_version_text s : ltoks (version_text s) <= ltoks s.
+Proof. apply step_version_text. Qed.
+
 Lemma peek_skip_ws_l ts : peek_past_ws_l ts = match snd (skip_ws_l ts) with [] => None | (k, _) :: _ => Some k end.
 Proof.
   induction ts as [|[k s] t IH]; cbn [peek_past_ws_l skip_ws_l]; [reflexivity|].
@@ -280,7 +299,7 @@ Qed.
 Lemma peek_is_current s k : peek_is s k = true -> current (skip_ws s) <> None.
 Proof. unfold peek_is. rewrite current_skip_ws. destruct (peek_past_ws s); congruence. Qed.
 
-Opaque bump skip_ws error expect in_node out_of_fuel.
+Opaque bump skip_ws error expect in_node out_of_fuel version_text.
 
 Definition ok (s : pst) : Prop := flag s = 0%N.
 
@@ -351,6 +370,9 @@ Lemma good_in_node k body s : good (reset s) (body (reset s)) -> good s (in_node
 Proof. intros [O L]. split; [unfold ok; rewrite flag_in_node; exact O|rewrite ltoks_in_node; exact L]. Qed.
 Lemma goodlt_in_node k body s : goodlt (reset s) (body (reset s)) -> goodlt s (in_node k body s).
 Proof. intros [O L]. split; [unfold ok; rewrite flag_in_node; exact O|rewrite ltoks_in_node; exact L]. Qed.
+
+Lemma good_version_text s : ok s -> good s (version_text s).
+Proof. intros H. split; [unfold ok; rewrite flag_version_text; exact H|apply ltoks_version_text]. Qed.
 
 Lemma good_arch_loop fuel : forall s, ok s -> ltoks s < fuel -> good s (arch_loop fuel s).
 Proof.
@@ -435,7 +457,8 @@ Definition rel_version (st : pst) : pst :=
       let st := skip_ws st in
       let st := constraint_node st in
       let st := skip_ws st in
-      let st := expect IDENT st in
+      let st := version_text st in
+      let st := skip_ws st in
       expect R_PARENS st) st
   else st.
 Definition rel_archs (st : pst) : pst :=
@@ -477,8 +500,9 @@ Proof.
   pose proof (good_skip_ws _ Ob) as [O2 L2].
   pose proof (good_constraint_node _ O2) as [O3 L3].
   pose proof (good_skip_ws _ O3) as [O4 L4].
-  pose proof (good_expect IDENT _ O4) as [O5 L5].
-  pose proof (good_expect R_PARENS _ O5) as [O6 L6].
+  pose proof (good_version_text _ O4) as [O5 L5].
+  pose proof (good_skip_ws _ O5) as [O5' L5'].
+  pose proof (good_expect R_PARENS _ O5') as [O6 L6].
   split; [exact O6|lia].
 Qed.
 
@@ -653,3 +677,173 @@ Proof.
     destruct (child_substring e r Hin) as (a & b & Hab). destruct (Hentry e eq_refl) as (a' & b' & Hs).
     exists (a' ++ a), (b ++ b'). rewrite Hs, Hab, <- !app_assoc. reflexivity.
 Qed.
+
+(* ================= nesting depth (the stack clause of C02 for relationship fields) ================= *)
+Transparent bump skip_ws error expect in_node out_of_fuel version_text.
+
+Definition rdle (k : nat) (l : list rtree) : Prop := Forall (fun e => depth e <= k) l.
+
+Lemma rdepth_node k cs d : rdle d cs -> depth (Node k cs) <= S d.
+Proof. intros H. cbn [depth]. apply le_n_S. induction H as [|x l Hx Hl IH]; [lia|]. cbn. lia. Qed.
+Lemma rdle_app k a b : rdle k a -> rdle k b -> rdle k (a ++ b).
+Proof. intros Ha Hb. apply Forall_app. split; assumption. Qed.
+Lemma rdle_mono k k' l : k <= k' -> rdle k l -> rdle k' l.
+Proof. intros Hk H. eapply Forall_impl; [|exact H]. cbn. intros; lia. Qed.
+Lemma rdle_tok k kk s : rdle k [Tok kk s].
+Proof. constructor; [cbn; lia|constructor]. Qed.
+
+(* a routine keeps the output of the current node at depth <= k *)
+Definition keeps (k : nat) (f : pst -> pst) : Prop := forall s, rdle k (out s) -> rdle k (out (f s)).
+
+Lemma keeps_bump k : keeps k bump.
+Proof. intros s H. unfold bump. destruct (toks s) as [|[kk t] r]; cbn [out]; [exact H|]. apply rdle_app; [exact H|apply rdle_tok]. Qed.
+Lemma skip_ws_l_depth ts e r : skip_ws_l ts = (e, r) -> rdle 0 e.
+Proof.
+  revert e r. induction ts as [|[k s] t IH]; intros e r H; cbn [skip_ws_l] in H; [inversion H; constructor|].
+  destruct (is_ws_kind k); [|inversion H; constructor].
+  destruct (skip_ws_l t) as [e' r'] eqn:E. inversion H; subst. constructor; [cbn; lia|eapply IH; reflexivity].
+Qed.
+Lemma keeps_skip_ws k : keeps k skip_ws.
+Proof.
+  intros s H. unfold skip_ws. destruct (skip_ws_l (toks s)) as [e r] eqn:E. cbn [out].
+  apply rdle_app; [exact H|]. eapply rdle_mono; [|eapply skip_ws_l_depth; exact E]. lia.
+Qed.
+Lemma keeps_out_of_fuel k : keeps k out_of_fuel.
+Proof. intros s H. exact H. Qed.
+(* opening a node whose body stays at depth <= j adds one element of depth <= S j *)
+Lemma keeps_in_node k j kk body : S j <= k -> keeps j body -> keeps k (in_node kk body).
+Proof.
+  intros Hk Hb s H. unfold in_node. cbn [out]. apply rdle_app; [exact H|].
+  constructor; [|constructor]. eapply Nat.le_trans; [apply rdepth_node; apply Hb; constructor|exact Hk].
+Qed.
+Lemma keeps_error k : 1 <= k -> keeps k error.
+Proof.
+  intros Hk s H. unfold error. apply (keeps_in_node k 0 ERROR); [exact Hk| |exact H].
+  intros s' H'. destruct (current s'); [apply keeps_bump|]; exact H'.
+Qed.
+Lemma keeps_expect k kk : 1 <= k -> keeps k (expect kk).
+Proof. intros Hk s H. unfold expect. destruct (cur_is s kk); [apply keeps_bump|apply keeps_error]; assumption. Qed.
+Lemma keeps_comp k f g : keeps k f -> keeps k g -> keeps k (fun s => g (f s)).
+Proof. intros Hf Hg s H. apply Hg, Hf, H. Qed.
+
+Lemma keeps_substvar_loop k fuel : 1 <= k -> keeps k (substvar_loop fuel).
+Proof.
+  intros Hk. induction fuel as [|f IH]; intros s H; cbn [substvar_loop]; [exact H|].
+  destruct (current s) as [kk|]; [|exact H].
+  destruct kk; try (apply IH, keeps_error; assumption); try (apply IH, keeps_bump; assumption). exact H.
+Qed.
+Lemma keeps_parse_substvar k : 2 <= k -> keeps k parse_substvar.
+Proof.
+  intros Hk. unfold parse_substvar. apply (keeps_in_node k 1); [exact Hk|]. intros s H. cbv zeta.
+  assert (H1 : rdle 1 (out (bump s))) by (apply keeps_bump; exact H).
+  assert (H2 : rdle 1 (out (if cur_is (bump s) L_CURLY then bump (bump s) else error (bump s))))
+    by (destruct (cur_is (bump s) L_CURLY); [apply keeps_bump|apply keeps_error; [lia|]]; exact H1).
+  match goal with |- rdle 1 (out (if cur_is ?t R_CURLY then _ else _)) =>
+    assert (H3 : rdle 1 (out t)) by (apply keeps_substvar_loop; [lia|exact H2]);
+    destruct (cur_is t R_CURLY); [apply keeps_bump|apply keeps_error; [lia|]]; exact H3 end.
+Qed.
+
+Lemma bump_constraint_depth ts e r : bump_constraint ts = (e, r) -> rdle 0 e.
+Proof.
+  revert e r. induction ts as [|[k s] t IH]; intros e r H; cbn [bump_constraint] in H; [inversion H; constructor|].
+  destruct k; try (inversion H; constructor);
+    (destruct (bump_constraint t) as [e' r'] eqn:E; inversion H; subst; constructor; [cbn; lia|eapply IH; reflexivity]).
+Qed.
+Lemma keeps_constraint_node k : 1 <= k -> keeps k constraint_node.
+Proof.
+  intros Hk. unfold constraint_node. apply (keeps_in_node k 0); [exact Hk|]. intros s H.
+  destruct (bump_constraint (toks s)) as [e r] eqn:E. cbn [out]. apply rdle_app; [exact H|eapply bump_constraint_depth; exact E].
+Qed.
+
+Lemma keeps_arch_loop k fuel : 1 <= k -> keeps k (arch_loop fuel).
+Proof.
+  intros Hk. induction fuel as [|f IH]; intros s H; cbn [arch_loop]; [exact H|]. cbv zeta.
+  pose proof (keeps_skip_ws k s H) as H1.
+  destruct (current (skip_ws s)) as [kk|]; [|apply keeps_error; assumption].
+  destruct kk; try (apply IH, keeps_error; assumption); try (apply IH, keeps_bump; assumption). apply keeps_bump; exact H1.
+Qed.
+Lemma keeps_profile_loop k fuel : 1 <= k -> keeps k (profile_loop fuel).
+Proof.
+  intros Hk. induction fuel as [|f IH]; intros s H; cbn [profile_loop]; [exact H|]. cbv zeta.
+  pose proof (keeps_skip_ws k s H) as H1.
+  destruct (current (skip_ws s)) as [kk|]; [|apply keeps_error; assumption].
+  destruct kk; try (apply IH, keeps_error; assumption); try (apply IH, keeps_bump; assumption).
+  - apply IH, keeps_expect; [exact Hk|]. apply keeps_skip_ws, keeps_bump. exact H1.
+  - apply keeps_bump; exact H1.
+Qed.
+Lemma keeps_profiles_while k fuel : 2 <= k -> keeps k (profiles_while fuel).
+Proof.
+  intros Hk. induction fuel as [|f IH]; intros s H; cbn [profiles_while]; destruct (peek_is s L_ANGLE); try exact H.
+  cbv zeta. apply IH. apply (keeps_in_node k 1); [exact Hk| |apply keeps_skip_ws; exact H].
+  intros t Ht. cbv zeta. apply keeps_profile_loop; [lia|]. apply keeps_bump. exact Ht.
+Qed.
+
+Lemma keeps_version_text k : 1 <= k -> keeps k version_text.
+Proof.
+  intros Hk s H. unfold version_text. destruct (cur_is s IDENT); [|apply keeps_error; [lia|exact H]]. cbv zeta.
+  destruct (cur_is (bump s) COLON); [|apply keeps_bump; exact H].
+  apply keeps_expect; [lia|]. apply keeps_bump, keeps_bump. exact H.
+Qed.
+Lemma keeps_parse_relation k : 3 <= k -> keeps k parse_relation.
+Proof.
+  intros Hk. rewrite (ltac:(reflexivity) : parse_relation = in_node RELATION (fun st =>
+      let st := rel_archs (rel_version (rel_after_name (expect IDENT st))) in profiles_while (loop_fuel st) st)).
+  apply (keeps_in_node k 2); [exact Hk|]. intros s H. cbv zeta.
+  apply keeps_profiles_while; [lia|].
+  assert (H1 : rdle 2 (out (expect IDENT s))) by (apply keeps_expect; [lia|exact H]).
+  assert (H2 : rdle 2 (out (rel_after_name (expect IDENT s)))).
+  { unfold rel_after_name. destruct (peek_past_ws (expect IDENT s)) as [kk|]; [|apply keeps_skip_ws; exact H1].
+    destruct kk; try exact H1; try (apply keeps_skip_ws; exact H1); try (apply keeps_error; [lia|]; apply keeps_skip_ws; exact H1).
+    cbv zeta. apply keeps_skip_ws. apply (keeps_in_node 2 1); [lia| |apply keeps_skip_ws; exact H1].
+    intros t Ht. cbv zeta. apply keeps_expect; [lia|]. apply keeps_skip_ws, keeps_bump. exact Ht. }
+  assert (H3 : rdle 2 (out (rel_version (rel_after_name (expect IDENT s))))).
+  { unfold rel_version. destruct (peek_is _ L_PARENS); [|exact H2]. cbv zeta.
+    apply (keeps_in_node 2 1); [lia| |apply keeps_skip_ws; exact H2].
+    intros t Ht. cbv zeta. apply keeps_expect; [lia|]. apply keeps_skip_ws. apply keeps_version_text; [lia|]. apply keeps_skip_ws.
+    apply keeps_constraint_node; [lia|]. apply keeps_skip_ws, keeps_bump. exact Ht. }
+  unfold rel_archs. destruct (peek_is _ L_BRACKET); [|exact H3]. cbv zeta.
+  apply (keeps_in_node 2 1); [lia| |apply keeps_skip_ws; exact H3].
+  intros t Ht. cbv zeta. apply keeps_arch_loop; [lia|]. apply keeps_bump. exact Ht.
+Qed.
+
+Lemma keeps_entry_loop k fuel : 3 <= k -> keeps k (entry_loop fuel).
+Proof.
+  intros Hk. induction fuel as [|f IH]; intros s H; cbn [entry_loop]; [exact H|]. cbv zeta.
+  pose proof (keeps_parse_relation k Hk s H) as H1.
+  destruct (peek_past_ws (parse_relation s)) as [kk|]; [|apply keeps_skip_ws; exact H1].
+  destruct kk; try (apply IH; apply (keeps_in_node k 0); [lia| |apply keeps_skip_ws; exact H1];
+                    intros t Ht; destruct (current t); [apply keeps_bump|]; exact Ht).
+  - apply IH. apply keeps_skip_ws, keeps_bump, keeps_skip_ws. exact H1.
+  - exact H1.
+Qed.
+Lemma keeps_parse_entry k : 4 <= k -> keeps k parse_entry.
+Proof.
+  intros Hk s H. unfold parse_entry. cbv zeta. apply (keeps_in_node k 3); [exact Hk| |apply keeps_skip_ws; exact H].
+  intros t Ht. apply keeps_entry_loop; [lia|exact Ht].
+Qed.
+Lemma keeps_root_loop a k fuel : 4 <= k -> keeps k (root_loop a fuel).
+Proof.
+  intros Hk. induction fuel as [|f IH]; intros s H; cbn [root_loop]; destruct (current s) as [c|]; try exact H.
+  cbv zeta.
+  match goal with |- rdle k (out (match current (skip_ws ?t) with _ => _ end)) => assert (HT : rdle k (out t)) end.
+  { destruct c; try (apply keeps_error; [lia|exact H]); try exact H; [apply keeps_parse_entry; assumption|].
+    destruct a; [apply keeps_parse_substvar; [lia|exact H]|apply keeps_error; [lia|exact H]]. }
+  match goal with |- rdle k (out (match current (skip_ws ?t) with _ => _ end)) =>
+    pose proof (keeps_skip_ws k t HT) as H2; destruct (current (skip_ws t)) as [kk|]; [|exact H2] end.
+  destruct kk; try (apply IH, keeps_skip_ws, keeps_error; [lia|assumption]).
+  apply IH, keeps_skip_ws, keeps_bump. assumption.
+Qed.
+
+Theorem rparse_depth s a t n : RelParse.parse s a = Ok (t, n) -> depth t <= 5.
+Proof.
+  unfold RelParse.parse. destruct (rlex s) as [ts| | |]; try discriminate. unfold parse_tokens.
+  set (body := fun st : pst => root_loop a (loop_fuel (skip_ws st)) (skip_ws st)).
+  set (s0 := mk_pst ts [] 0 0%N).
+  assert (Hk : rdle 5 (out (in_node ROOT body s0))).
+  { apply (keeps_in_node 5 4); [lia| |constructor]. intros st Hst. unfold body. apply keeps_root_loop; [lia|]. apply keeps_skip_ws. exact Hst. }
+  change (in_node ROOT (fun st : pst => let st0 := skip_ws st in root_loop a (loop_fuel st0) st0) s0) with (in_node ROOT body s0).
+  destruct (flag (in_node ROOT body s0) =? 0)%N; [|destruct (flag (in_node ROOT body s0) =? 1)%N; discriminate].
+  destruct (out (in_node ROOT body s0)) as [|x [|y l]] eqn:Eo; try discriminate.
+  intros H. inversion H; subst. inversion Hk; assumption.
+Qed.
+Opaque bump skip_ws error expect in_node out_of_fuel version_text.
